@@ -15,7 +15,11 @@ equal to what went in; a pushed-down predicate evaluates the same on both sides 
   below are therefore re-proved against what the source says now.
 * `repopulate` is the descriptor loop of `RepopulatePhysicalExpressionFunctions`, `typecheckPick` the overload
   resolution of `logical/function.go`, both run on `Octo.Gen.WireFunctions.table` (regenerated `FunctionMap()`).
-* everything is tied to the real code by the C26 correspondence run (all fields of every proto message compared).
+* `repopTree` is `RepopulatePhysicalExpressionFunctions` over a whole predicate (`TransformExpr` bottom-up, `outOk` the
+  conjunction over all calls), `clientPushDown`/`serverPushDown` the predicate bookkeeping of executor.go / plugins.go.
+* everything is tied to the real code by the C26 correspondence run (all fields of every proto message compared, the
+  descriptor of every call after the real JSON + Repopulate trip), predicate evaluation and end-to-end plugin queries
+  are checked differentially (native against through-the-boundary).
 
 "Equal" for values means equal up to the location of times (`normLoc`): a timestamp carries an instant, `AsTime`
 returns it in UTC; `Value.Compare` ignores the location (`value_roundtrip_cmp`).
